@@ -187,6 +187,26 @@ def evaluate(c):
                     chk('UNUSED-RADIALS', float(np.abs(pa - pr)[pa > -200].max()), 1e-9, 'radials on a first medium without reflection points (radius %.3g, reflections from %.3g) change the pattern' % (xb, lo))
                 canon.append('%s|v%d|unused|%s' % (und, vi, b))
                 nontriv.append(True)
+            # a highly conducting medium at height H beyond a first medium without reflection points acts as an ideal
+            # ground plane at height H: same pattern as the antenna moved up by -H over ideal ground, carrying the same
+            # currents (only for antennas without grounded pulses: those have their image built in)
+            if not gnd and (b == 'linear' or lo > 0.05):
+                for H in (-2.0, -0.7):
+                    xb = lo - 0.5 if b == 'linear' else 0.5 * lo
+                    mh, gh = pattern(cs, dict(media=[[13., 5e-3, 0., xb], [10., 1e12, H]], boundary=b))
+                    up = dict(cs, wires=[dict(w, p1=[w['p1'][0], w['p1'][1], w['p1'][2] - H], p2=[w['p2'][0], w['p2'][1], w['p2'][2] - H]) for w in cs['wires']])
+                    mu = geom.build(dict(up, env='ideal'))
+                    mu.compute()
+                    mu.current = mh.current.copy()
+                    mu.power = mh.power
+                    _, _, gu = obs.far(mu, ZEN, AZI)
+                    gu = np.array(gu)
+                    ev += 2
+                    mk = gu[..., 2] > gu[..., 2].max() - 50
+                    chk('HEIGHT-LIMIT-' + b, float(np.abs(gh[..., 2] - gu[..., 2])[mk].max()), 1e-3,
+                        'medium of conductivity 1e12 at height %g: pattern differs from ideal ground at that height' % H)
+                    canon.append('%s|v%d|height|%s|%g' % (und, vi, b, H))
+                    nontriv.append(True)
             for eps, sig, h in ((3., 1e-4, -2.), (80., 4., 0.), (1., 1e12, -10.)):
                 _, g4 = pattern(cs, dict(media=[[13., 5e-3, 0., hi + 0.5], [eps, sig, h]], boundary=b))
                 ev += 1
